@@ -374,7 +374,7 @@ VARIANTS = [
 
         self.send_client_close(module)"""),
     dict(name="c19-ack-in-handler-skipped-by-early-return", property="C19", rule="C19-D",
-         edits=[dict(file=M, old="            self.add_subscription(src_module, msg)\n            self.send_ack(src_module)", new="            self.add_subscription(src_module, msg)"),
+         edits=[dict(file=M, old="            self.add_subscription(src_module, self.message)\n            self.send_ack(src_module)", new="            self.add_subscription(src_module, self.message)"),
                 dict(file=M, old='            self.logger.debug(f"SUBSCRIBE- {src_module!s} to MT:{sub.msg_type}")\n', new='            self.logger.debug(f"SUBSCRIBE- {src_module!s} to MT:{sub.msg_type}")\n        self.send_ack(src_module)\n')]),
     dict(name="c14-silent-deliver-flag", property="C14", expect="silent", file=M,
          old="""            if module.conn in self.wlist:
